@@ -553,8 +553,8 @@ fn cmd_markdown() -> (u64, Vec<String>) {
         ("empty scrut block", "# t\n\n```scrut\n```\n".to_string(), 0),
         ("multi-byte info string with config", "```日{a: 1}\nx\n```\n\n```scrut\n$ echo a\na\n```\n".to_string(), 1),
         ("line starting with two backticks", "``inline`` code at line start\n\n```scrut\n$ echo a\na\n```\n".to_string(), 1),
-        ("unterminated front-matter (known finding C06.iter.none-consumes-nothing)", "---\nfoo\n\n```scrut\n$ echo a\na\n```\n".to_string(), 1),
-        ("unterminated fence after a complete block (known finding C06.parse.every-line)", "```scrut\n$ echo a\na\n```\n\n```scrut\n$ echo b\n".to_string(), 2),
+        ("unterminated front-matter (must be an error)", "---\nfoo\n\n```scrut\n$ echo a\na\n```\n".to_string(), 99),
+        ("unterminated fence after a complete block (must be an error)", "```scrut\n$ echo a\na\n```\n\n```scrut\n$ echo b\n".to_string(), 99),
         ("plain", "# t\n\n```scrut\n$ echo a\na\n```\n".to_string(), 1),
     ];
     let mut n = 0;
@@ -674,6 +674,42 @@ fn cmd_c08(len: usize) -> (u64, Vec<String>) {
     (n, bad)
 }
 
+// ------------------------------------------------------------------------------------------------ update probes (C10 observations)
+fn cmd_c10_probe() -> (u64, Vec<String>) {
+    use scrut::generators::generator::UpdateGenerator;
+    use scrut::generators::markdown::MarkdownUpdateGenerator;
+    use scrut::outcome::Outcome;
+    use scrut::parsers::markdown::{MarkdownParser, DEFAULT_MARKDOWN_LANGUAGES};
+    use scrut::parsers::parser::{Parser, ParserType};
+    let docs = [
+        "# t\n\n```scrut\n$ echo a\na\n```\n\ntail\n",
+        "```scrut\n# only a comment\n```\n\n```scrut\n$ echo a\na\n```\n",
+        "```scrut\n$ echo a\na\n```\n\n```scrut\n# no command\n```\ntail\n",
+        "```scrut\n$ echo a\na\n```\n\n```scrut\n$ echo b\n",
+        "---\nfoo: 1\n\n```scrut\n$ echo a\na\n```\n",
+    ];
+    let mut out = vec![];
+    std::panic::set_hook(Box::new(|_| {}));
+    for d in docs {
+        let maker = std::sync::Arc::new(ExpectationMaker::new(RuleRegistry::default()));
+        let txt = match MarkdownParser::new(maker, DEFAULT_MARKDOWN_LANGUAGES, None).parse(d) {
+            Err(e) => format!("PARSE-ERR {e}"),
+            Ok((_, tcs)) => {
+                let outcomes: Vec<Outcome> = tcs.iter().map(|t| Outcome { location: None, output: Output { stderr: "".into(), stdout: "a\n".into(), exit_code: ExitStatus::Code(0) },
+                    testcase: t.clone(), format: ParserType::Markdown, escaping: Escaper::default(), result: Ok(()) }).collect();
+                let refs: Vec<&Outcome> = outcomes.iter().collect();
+                match std::panic::catch_unwind(std::panic::AssertUnwindSafe(|| MarkdownUpdateGenerator::default().generate_update(d, &refs))) {
+                    Err(_) => format!("{} testcases; UPDATE PANICS", tcs.len()),
+                    Ok(Err(e)) => format!("{} testcases; UPDATE ERR {e}", tcs.len()),
+                    Ok(Ok(u)) => format!("{} testcases; updated={:?} same={}", tcs.len(), u, u == d),
+                }
+            }
+        };
+        out.push(format!("{{\"doc\":{},\"result\":{}}}", jstr(d), jstr(&txt)));
+    }
+    (docs.len() as u64, out)
+}
+
 fn cmd_cram_probe() -> (u64, Vec<String>) {
     use scrut::parsers::cram::CramParser;
     use scrut::parsers::parser::Parser;
@@ -727,6 +763,7 @@ fn main() {
         "config" => cmd_config(),
         "markdown" => cmd_markdown(),
         "cram-probe" => cmd_cram_probe(),
+        "c10-probe" => cmd_c10_probe(),
         "c08" => cmd_c08(args.get(2).and_then(|s| s.parse().ok()).unwrap_or(5)),
         "validate" => cmd_validate(),
         _ => {
